@@ -2,6 +2,8 @@
 
 package font
 
+import "github.com/go-text/typesetting/font/cff"
+
 // Verification hooks for property C10, second part (composite glyphs, phantom points).
 // Add-only.
 
@@ -17,3 +19,6 @@ func (f *Face) VerifGlyfAllPoints(gid GID) []VerifContourPoint {
 	}
 	return out
 }
+
+// VerifCFF returns the parsed 'CFF ' table, or nil.
+func (f *Font) VerifCFF() *cff.CFF { return f.cff }
